@@ -159,8 +159,11 @@ func c18Specs(svc string, withRules bool) []*MethodSpec {
 			n := int(in.Get(in.Descriptor().Fields().ByName("i32")).Int())
 			return c18HttpBody(bytes.Repeat([]byte{'d'}, n)), nil
 		}},
+		// an upload: the body is a google.api.HttpBody field, read chunk by chunk
+		{Service: svc, Name: "UP", In: "Req", Out: "Reply", ClientStream: true, Stream: cs},
 	}
 	if withRules {
+		specs[6].Rule = postRule("/c18/up/{name}", "file")
 		specs[0].Rule = postRule("/c18/u", "*")
 		specs[1].Rule = getRule("/c18/g/{name}")
 		specs[2].Rule = postRule("/c18/ss", "*")
@@ -912,6 +915,73 @@ func c18Edges(c *Ctx, e *c18Env) {
 			c.SpecFail("stats", name, fmt.Sprintf("%d, %d bytes, panic=%v", rec.Code, rec.Body.Len(), pn), fmt.Sprintf("200 and %d bytes", n), "C18/edge/httpbody-reply", "the HttpBody reply does not arrive")
 		} else if why := c18Grammar(evs, endErrs, "/"+fxPkg+".Svc/HB", false, false, 1, 1, false); why != "" {
 			c.SpecFail("stats", name, strings.Join(evs, " "), "tag in-header begin, one in-payload, one out-payload, end", "C18/edge/httpbody-reply/"+c18Key(why), why)
+		}
+	}
+	// the client names its message encoding explicitly — "identity" (C-core clients always do): same
+	// outcome, full event sequence
+	for _, m := range []string{"U", "SS"} {
+		name := "grpc: " + m + " with grpc-encoding: identity"
+		e.st.Reset()
+		ctx, cancel := context.WithTimeout(context.Background(), 3*time.Second)
+		var err error
+		nrep := 0
+		if m == "U" {
+			err = e.gcc.Invoke(ctx, "/"+fxPkg+".Svc/U", c18Req(fx, "ok", "", 0), fx.NewMsg("Reply"), grpc.UseCompressor("identity"))
+			nrep = 1
+		} else {
+			var st grpc.ClientStream
+			st, err = e.gcc.NewStream(ctx, &grpc.StreamDesc{ServerStreams: true}, "/"+fxPkg+".Svc/SS", grpc.UseCompressor("identity"))
+			if err == nil {
+				st.SendMsg(c18Req(fx, "ok", "", 2)) //nolint
+				st.CloseSend()                     //nolint
+				for {
+					if err = st.RecvMsg(fx.NewMsg("Reply")); err != nil {
+						break
+					}
+					nrep++
+				}
+				if err == io.EOF {
+					err = nil
+				}
+			}
+		}
+		cancel()
+		time.Sleep(20 * time.Millisecond)
+		evs, endErrs := e.st.Snapshot()
+		c.Eval("edge", name, true)
+		c.Class("edge")
+		if err != nil {
+			c.SpecFail("outcome", name, err.Error(), "the reply, status OK", "C18/edge/identity-encoding-changes-outcome", "with a stats handler installed a call that names grpc-encoding identity fails")
+		} else if why := c18Grammar(evs, endErrs, "/"+fxPkg+".Svc/"+m, false, m == "SS", 1, nrep, false); why != "" {
+			c.SpecFail("stats", name, strings.Join(evs, " "), "the full event sequence", "C18/edge/identity/"+c18Key(why), why)
+		}
+	}
+	// an HttpBody upload, also an EMPTY one of unknown length: every message the handler receives
+	// (the reply says how many) is one in-payload
+	for _, up := range []struct {
+		n       int
+		chunked bool
+	}{{0, true}, {0, false}, {5, true}, {5, false}, {3000, true}} {
+		name := fmt.Sprintf("http: HttpBody upload of %d bytes (length announced: %v)", up.n, !up.chunked)
+		e.st.Reset()
+		r := httptest.NewRequest("POST", "/c18/up/ok", bytes.NewReader(bytes.Repeat([]byte{'u'}, up.n)))
+		r.Header.Set("Content-Type", "application/octet-stream")
+		r.Header.Set("Accept", "application/json")
+		if up.chunked {
+			r.ContentLength = -1
+		}
+		rec, pn := serveOn(fx.Mux, r)
+		evs, endErrs := e.st.Snapshot()
+		c.Eval("edge", name, true)
+		c.Class("edge")
+		recv := -1
+		if i := strings.Index(rec.Body.String(), `"c`); i >= 0 {
+			fmt.Sscanf(rec.Body.String()[i+2:], "%d", &recv)
+		}
+		if pn != nil || rec.Code != 200 || recv < 0 {
+			c.SpecFail("stats", name, fmt.Sprintf("%d %s panic=%v", rec.Code, truncS(rec.Body.String(), 80), pn), "200 and the handler's count", "C18/edge/upload", "the upload does not arrive")
+		} else if why := c18Grammar(evs, endErrs, "/"+fxPkg+".Svc/UP", true, false, recv, 1, false); why != "" {
+			c.SpecFail("stats", name, strings.Join(evs, " "), fmt.Sprintf("tag in-header begin, %d in-payload, one out-payload, end", recv), "C18/edge/upload/"+c18Key(why), why)
 		}
 	}
 	// a WebSocket binding without a body: the one message the handler receives is built from the URL —
